@@ -9,6 +9,7 @@ import (
 	"fmt"
 	"sort"
 	"strconv"
+	"time"
 
 	"github.com/hyperjumptech/grule-rule-engine/ast"
 	"github.com/hyperjumptech/grule-rule-engine/model"
@@ -35,6 +36,9 @@ type Fact struct {
 	Out     []int64 // written by rules (F.Out[<computed selector>] = ...), never read by one
 	M       map[string]int64
 	Once    int64 // written only by Mark(), never read by a rule
+	St      int64 // written only by Stamp(), never read by a rule
+
+	born time.Time // when the data context of the present call was made (the abstract clock: 1 = the present call, 2 = earlier)
 
 	hook func(ev J) // call log (nil = off)
 	gate func(site string)
@@ -64,6 +68,18 @@ func (f *Fact) Heavy(a int64) int64 { r := a * 2; f.logCall("Heavy", []interface
 // HeavyB is its boolean sibling (false for 0 and 1: zero-valued results are results too).
 func (f *Fact) HeavyB(a int64) bool { r := a > 1; f.logCall("HeavyB", []interface{}{a}, r); return r }
 
+// HeavyV and HeavyP are counted methods whose result is not used as it is: a rule reads an element of the slice, or a member
+// of the struct, the call yields (F.HeavyV(x)[1], F.HeavyP(x).V). The call is the remembered atom, the selection is not.
+func (f *Fact) HeavyV(a int64) []int64 {
+	f.logCall("HeavyV", []interface{}{a}, a*2)
+	return []int64{a * 2, a + 1}
+}
+
+// HeavyPt is what HeavyP yields.
+type HeavyPt struct{ V int64 }
+
+func (f *Fact) HeavyP(a int64) *HeavyPt { f.logCall("HeavyP", []interface{}{a}, a*3); return &HeavyPt{V: a * 3} }
+
 // IsPos is pure.
 func (f *Fact) IsPos(a int64) bool { f.logCall("IsPos", []interface{}{a}, a > 0); return a > 0 }
 
@@ -83,6 +99,29 @@ func (f *Fact) SetY(v int64) { f.Y = v; f.logCall("SetY", []interface{}{v}, 0) }
 
 // Mark records that a method-call action ran: no rule reads F.Once, so no Forget is needed.
 func (f *Fact) Mark(v int64) { f.Once = f.Once*10 + v; f.logCall("Mark", []interface{}{v}, 0) }
+
+// epoch projects an instant to the abstract clock of the specification: 1 when it lies in the present call (not before the
+// call's data context was made), 2 when it is older - a value of Now() left over from an earlier call on the instance.
+func (f *Fact) epoch(t time.Time) int64 {
+	if t.Before(f.born) {
+		return 2
+	}
+	return 1
+}
+
+// Stamp records when a rule ran: what Now() yields in an action must be an instant of the present call.
+func (f *Fact) Stamp(t time.Time) {
+	v := f.epoch(t)
+	f.St = f.St*10 + v
+	f.logCall("Stamp", []interface{}{v}, 0)
+}
+
+// Fresh tells whether an instant lies in the present call: what Now() yields in a condition does.
+func (f *Fact) Fresh(t time.Time) bool {
+	v := f.epoch(t)
+	f.logCall("Fresh", []interface{}{v}, v == 1)
+	return v == 1
+}
 
 func cloneFact(f *Fact) *Fact {
 	g := *f
@@ -139,6 +178,10 @@ func (w *World) Clone() *World {
 }
 
 func (w *World) DataContext() ast.IDataContext {
+	// the present call begins: every instant read from now on is later than every instant read before
+	for t0 := time.Now(); !time.Now().After(t0); {
+	}
+	w.F.born = time.Now()
 	dc := ast.NewDataContext()
 	if err := dc.Add("F", w.F); err != nil {
 		panic(err)
@@ -196,7 +239,7 @@ func (w *World) jsonValue(path ...interface{}) interface{} {
 func (w *World) Snapshot() J {
 	f := w.F
 	s := J{"F.X": f.X, "F.Y": f.Y, "F.Z": f.Z, "F.K": int64(f.K), "F.W": int64(f.W), "F.B": f.B, "F.C": f.C,
-		"F.S": f.S, "F.T": f.T, "F.I": f.I, "F.Once": f.Once, "F.H": f.H, "F.XX": f.XX}
+		"F.S": f.S, "F.T": f.T, "F.I": f.I, "F.Once": f.Once, "F.St": f.St, "F.H": f.H, "F.XX": f.XX}
 	if f.P != nil {
 		s["F.P.V"] = f.P.V
 		s["F.P.S"] = f.P.S
